@@ -1,13 +1,15 @@
 #!/bin/bash
-# usage: tools/mut.sh <Cxx> <file> <sed-expr> [tier]   -- apply a one-line mutant to /repo, run the check, restore.
+# usage: tools/mut.sh <Cxx> <file> <sed-expr> [tier]
+# Applies a one-line mutant in a scratch worktree of /repo HEAD (never in /repo), runs the check against it with its own
+# build / output directories, removes the scratch copies.
 set -u
 prop=$1; file=$2; expr=$3; tier=${4:-quick}
-cd /repo || exit 2
-git diff --quiet || { echo "repo dirty"; exit 2; }
-sed -i "$expr" "$file"
-if git diff --quiet; then echo "MUTANT DID NOT APPLY"; exit 2; fi
-git --no-pager diff --stat | tail -1
-cd /verif && ./vcheck "$prop" "$tier" 2>&1 | grep -E "VIOLATION|KNOWN|TOOL-ERROR|\[done\]" | cut -c1-400 | head -${MUT_LINES:-6}
-rc=${PIPESTATUS[0]}
-git -C /repo checkout -- .
-echo "check exit=$rc"
+wt=/tmp/mut.$$
+git -C /repo worktree add -q --detach $wt HEAD || exit 2
+trap "git -C /repo worktree remove --force $wt 2>/dev/null; rm -rf $wt $wt.build $wt.out" EXIT
+sed -i "$expr" "$wt/$file"
+if git -C $wt diff --quiet; then echo "MUTANT DID NOT APPLY"; exit 2; fi
+git -C $wt --no-pager diff | grep -E "^[-+][^-+]" | head -6
+mkdir -p $wt.build; cp -r /verif/.build/target $wt.build/target 2>/dev/null
+cd /verif && VERIF_REPO=$wt VERIF_BUILD=$wt.build VERIF_OUT=$wt.out ./vcheck "$prop" "$tier" 2>&1 | grep -E "VIOLATION|KNOWN|TOOL-ERROR|DRIFT|\[done\]" | cut -c1-300 | head -${MUT_LINES:-6}
+echo "check exit=${PIPESTATUS[0]}"
